@@ -176,6 +176,7 @@ class Check:
         self.jobs: list = []
         self.only = None
         self.show = None
+        self.partial = False       # only part of the pack is run (--only/--job): finding bookkeeping is relaxed
 
     # ------------------------------------------------------------------ exploration
     def explore(self, func_name, body, theory, label='', contracts=None, loop_specs=None, axioms=(),
@@ -343,7 +344,7 @@ class Check:
             self.trusted |= o['trusted']
             canaries += o['canaries']
             self.job_times.append((round(o['wall'], 1), o['job']))
-        if not self.obligations and not self.only:
+        if not self.obligations and not (self.only or self.partial):
             self.vacuity.append('no obligation was generated')
         # still undecided: the native oracle searches the obligation's witness family; a failing input found on the
         # real code is a violation whatever the solver said
@@ -390,7 +391,7 @@ class Check:
                     unknown.remove(ob)
                     refuted.append(ob)
                     finding_hits.setdefault(fid, []).append(ob)
-                if fid not in finding_hits and not self.only:
+                if fid not in finding_hits and not (self.only or self.partial):
                     # the obligation meant to expose it was not refuted: verifier and oracle disagree
                     self.errors.append(f'finding {fid}: native witness fails but no obligation tagged with it was '
                                        f'refuted')
